@@ -149,7 +149,7 @@ def view(case):
 
 def campaigns(tier: str) -> List[Campaign]:
     return [Campaign("links", c02_case(), check, quick=480, thorough=32000, quick_shards=8,
-                     required_classes={"mutual_pair": 0.5, "missing_partner": 0.3, "sync_on_stream_-1": 0.1,
+                     required_classes={"unrounded_fractional_times": 0.05, "pair_with_correlation_id_0": 0.06, "mutual_pair": 0.5, "missing_partner": 0.3, "sync_on_stream_-1": 0.1,
                                        "activity_without_launch": 0.05, "event_sync": 0.05, "trimmed_load": 0.05,
                                        "positions_above_127_with_small_correlation_ids": 0.1, "activity_without_id": 0.03, "nontrivial": 0.05},
                      sample_view=view)]
